@@ -104,6 +104,10 @@ def to_formula(v, facts, fname):
     if k == 'call' and v[1] == 'isinstance' and len(v[2]) == 2 and v[2][1][0] == 'name' and rooted_at_imm(v[2][0]):
         # the class of the immediate expression (or of a part of it): a fact about the kind of the operand
         return ('cmp', '==', ('KIND', '{} isa {}'.format(show(v[2][0]).replace("('sym', 'INST')", 'inst'), v[2][1][1])), ('const', True))
+    if k == 'cmp' and v[1] in ('in', 'not in') and v[3] == ENV and v[2][0] == 'attr' and v[2][1] == ('attr', INST, 'imm'):
+        # found in the environment the predicate is handed (constants and labels alike)
+        f = ('cmp', '==', ('KIND', '{} in <env>'.format(v[2][2])), ('const', True))
+        return f if v[1] == 'in' else ('not', f)
     if k == 'cmp' and v[1] in ('in', 'not in') and v[3][0] == 'name' and v[2][0] == 'attr' and v[2][1] == ('attr', INST, 'imm'):
         # which table the reference of the immediate expression is found in: a fact about the kind of the operand
         f = ('cmp', '==', ('KIND', '{} in {}'.format(v[2][2], v[3][1])), ('const', True))
@@ -158,6 +162,28 @@ def cmp_formula(op, a, b, facts, fname):
         except TypeError:
             raise AnalysisError('predicate {}: comparison {!r} {} {!r} raises'.format(fname, va, op, vb))
         return TRUE if r else FALSE
+    for x, y in ((a, b), (b, a)):
+        if is_const(y) and y[1] is None and x[0] == 'bin' and x[1] in ('+', '-', '*', '%', '<<', '>>', '&', '|') and op in ('==', '!='):
+            return FALSE if op == '==' else TRUE        # the result of integer arithmetic is never None
+    # X + k <op> c   is   X <op> c - k ;   (X + k) % m == r   is   X % m == (r - k) % m     (integers)
+    def affine(v):
+        k = 0
+        while v[0] == 'bin' and v[1] in ('+', '-') and is_const(v[3]) and isinstance(v[3][1], int) and not isinstance(v[3][1], bool):
+            k += v[3][1] if v[1] == '+' else -v[3][1]
+            v = v[2]
+        return v, k
+    if is_const(b) and isinstance(b[1], int) and not isinstance(b[1], bool):
+        base, k = affine(a)
+        if k:
+            return cmp_formula(op, base, C(b[1] - k), facts, fname)
+        if a[0] == 'bin' and a[1] == '%' and is_const(a[3]) and isinstance(a[3][1], int) and a[3][1] > 0 and op in ('==', '!='):
+            base, k = affine(a[2])
+            if k:
+                return cmp_formula(op, ('bin', '%', base, a[3]), C((b[1] - k) % a[3][1]), facts, fname)
+    if is_const(a) and isinstance(a[1], int) and not isinstance(a[1], bool):
+        base, k = affine(b)
+        if k:
+            return cmp_formula(op, C(a[1] - k), base, facts, fname)
     return ('cmp', op, to_term(a, facts, fname), to_term(b, facts, fname))
 
 
@@ -203,6 +229,18 @@ def to_term(v, facts, fname):
             and ((len(v[2]) == 2 and v[2][1] == C(0)) or (v[3] and v[3][0] == ('base', C(0)))):
         # the integer the operand's text spells: label-independent (and a ValueError for anything that is not a literal)
         return ('IMMC', '<literal>')
+    if v[0] == 'call' and v[1] == 'int' and len(v[2]) == 1 and not v[3]:
+        inner = v[2][0]
+        fld = None
+        if inner[0] == 'attr' and inner[1] == i and inner[2] in REG_FIELDS:
+            fld = inner[2]
+        elif inner[0] == 'call' and inner[1] == 'getattr' and len(inner[2]) == 2 and inner[2][0] == i and is_const(inner[2][1]) and inner[2][1][1] in REG_FIELDS:
+            fld = inner[2][1][1]
+        if fld is not None:
+            # the operand text read as a *decimal* integer (int(x) without base 0, no lookup_register): `3` is seen, `0x3` and
+            # `0b11` raise ValueError, a register name too
+            RAW_COMPARES.append((fname, fld + ' [int() in base 10]'))
+            return ('REG', fld)
     if v[0] == 'bin' and v[1] == '%':
         return ('mod', to_term(v[2], facts, fname), to_term(v[3], facts, fname))
     if v[0] == 'bin' and v[1] in ('+', '-', '*', '<<') and is_const(v[2]) and is_const(v[3]):
